@@ -16,7 +16,9 @@ def run(v, workdir, replay):
     v.rule = ("case = one decided block executed by 3 nodes + lab along independently drawn call paths; distinct non-trivial = "
               "distinct (set of call paths of the nodes, number of rounds, classes of abandoned proposals seen, block has txs) cells "
               "among blocks with >=1 user transaction or an upgrade")
-    v.assumptions = ["the harness plays CometBFT and only issues call sequences the ABCI spec allows",
+    v.assumptions = ["the harness plays CometBFT and only issues call sequences the ABCI spec allows (incl. a decided block that equals a node's own earlier proposal in "
+                     "everything but one header field - time, proposer, next-validators hash or evidence list - as an equivocating proposer or a second instance of "
+                     "the same validator would produce; a history ends after a block that carried misbehaviour evidence)",
                      "post-Aspen blocks carry signed oracle vote extensions of the validator set in force (updates applied with CometBFT's two-height lag, "
                      "more than 2/3 of the power committing); when a validator the application has already dropped would be needed for 2/3 the harness falls back to an empty extended commit"]
     hists = chainlog.run_chain(v, workdir, "paths")
@@ -32,6 +34,9 @@ def run(v, workdir, replay):
     v.need("restarts", 4)
     v.need("blocks_with_signed_vote_extensions", 40)
     v.need("blocks_changing_currency_pairs", 5)
+    v.need("decided_block_is_twin_of_a_nodes_own_proposal", 10)
+    for f in ("time", "next_validators_hash", "proposer_address", "misbehavior"):
+        v.need("twin_differs_in:" + f, 1)
 
 
 def check(v, hists):
@@ -66,6 +71,10 @@ def check(v, hists):
                 v.saw("blocks_with_signed_vote_extensions")
             if any(e["kind"] == "tx_built" and e.get("intent", "").startswith("currency_pairs:") for e in evs):
                 v.saw("blocks_changing_currency_pairs")
+            for e in evs:
+                if e["kind"] == "twin_of_own_proposal":
+                    v.saw("decided_block_is_twin_of_a_nodes_own_proposal")
+                    v.saw("twin_differs_in:" + e["differs_in"])
             lab_begin = [e for e in evs if e["kind"] == "lab_begin"]
             upgrade = any(e.get("upgrade_hashes", 0) for e in lab_begin)
             if upgrade:
